@@ -731,9 +731,16 @@ class VerifyingBase(LookupBaseFallback):  # noqa F821
     # zope.component.persistentregistry
 
     def changed(self, originally_changed):
+        # Note the generations *before* dropping the caches: whatever
+        # gets cached from now on (possibly by another thread, before we
+        # are done here) is at least as recent as what we record. The
+        # other way around, results computed between the two steps could
+        # be recorded as valid for generations they have never seen.
+        verify_ro = self._registry.ro[1:]
+        verify_generations = [r._generation for r in verify_ro]
         LookupBaseFallback.changed(self, originally_changed)  # noqa F821
-        self._verify_ro = self._registry.ro[1:]
-        self._verify_generations = [r._generation for r in self._verify_ro]
+        self._verify_ro = verify_ro
+        self._verify_generations = verify_generations
 
     def _verify(self):
         if (
